@@ -154,7 +154,7 @@ func trunc200(s string) string {
 // (i) NewFrom of maps whose keys overlap after dotted-path expansion
 func c09NewFrom(tier string) *core.Space {
 	keys := []string{"a", "b", "a.b", "a.c", "a.b.c", "a.0", "0"}
-	vals := []interface{}{"leaf", nil, M{"b": "vb"}, M{"c": "vc"}, M{"b": M{"c": "vbc"}}, L{"el"}}
+	vals := []interface{}{"leaf", nil, M{"b": "vb"}, M{"c": "vc"}, M{"b": M{"c": "vbc"}}, L{"el"}, M{"b": nil, "d": "vd"}, M{"b": M{"c": nil, "d": "vd"}}}
 	type entry struct {
 		k string
 		v int
@@ -210,9 +210,25 @@ func c09NewFrom(tier string) *core.Space {
 				if err != nil {
 					return "newfrom:" + errClass(err)
 				}
-				return observeConfig(c, ucfg.PathSep("."))
+				o := observeConfig(c, ucfg.PathSep(".")) + " has="
+				// which settings exist (an explicit null is a setting)
+				for _, p := range []string{"a", "b", "a.b", "a.c", "a.d", "a.b.c", "a.b.d", "a.0", "0"} {
+					if h, err := c.Has(p, -1, ucfg.PathSep(".")); err == nil && h {
+						o += p + ","
+					}
+				}
+				return o
 			}}
-			return c09Explore(sc, 2, 3000)
+			r := c09Explore(sc, 2, 3000)
+			if r.Viol != nil {
+				m := mk(maps[i])
+				if _, isStr := m["a"].(string); isStr {
+					if v, has := m["a.0"]; has && v == nil {
+						r.Viol.Sig += " (primitive a next to nil a.0)"
+					}
+				}
+			}
+			return r
 		},
 	}
 }
@@ -316,11 +332,123 @@ func c09Refs(tier string) *core.Space {
 	}
 }
 
+// (iv) references to lists and objects read into typed map targets (a map target enumerates the
+// settings in map order, every key being evaluated with its own set of active references)
+func c09Containers() *core.Space {
+	size, build := c08ContainerCases()
+	extra := []M{
+		{"n": 5, "x": "${n}", "y": L{"${n}", 7}, "z": L{1, "${n}"}, "w": L{"${n:0}"}},
+		{"n": L{1, 2}, "x": "${n}", "y": "${n}", "z": L{"${n.0}"}},
+		{"n": "${m}", "m": 3, "x": "${n}", "y": L{"${n}", "${m}"}},
+	}
+	get := func(i int) M {
+		if i < size {
+			return build(i)
+		}
+		return extra[i-size]
+	}
+	return &core.Space{
+		Name: "container-references-into-typed-maps",
+		Size: size + len(extra),
+		Text: func(i int) string {
+			return fmt.Sprintf("%s unpacked into map[string]interface{}, map[string][]interface{}, map[string][]int and struct{A,B []interface{}}", tree.CanonGo(map[string]interface{}(get(i))))
+		},
+		Exec: func(i int) core.Result {
+			in := get(i)
+			sc := c09Scenario{Run: func() string {
+				opts := []ucfg.Option{ucfg.PathSep("."), ucfg.VarExp}
+				cfg, err := ucfg.NewFrom(in, opts...)
+				if err != nil {
+					return "newfrom:" + errClass(err)
+				}
+				out := ""
+				show := func(name string, v interface{}, err error) {
+					if err != nil {
+						out += name + ":error "
+						return
+					}
+					out += name + ":" + tree.CanonGo(v) + " "
+				}
+				var m1 map[string]interface{}
+				err = cfg.Unpack(&m1, opts...)
+				show("map", m1, err) // (what a failed call leaves in the target is not compared)
+				var m2 map[string][]interface{}
+				err = cfg.Unpack(&m2, opts...)
+				g2 := map[string]interface{}{}
+				for k, v := range m2 {
+					g2[k] = v
+				}
+				show("lists", g2, err)
+				var m3 map[string][]int
+				err = cfg.Unpack(&m3, opts...)
+				g3 := map[string]interface{}{}
+				for k, v := range m3 {
+					l := make([]interface{}, len(v))
+					for j, x := range v {
+						l[j] = x
+					}
+					g3[k] = l
+				}
+				show("ints", g3, err)
+				var st struct{ A, B []interface{} }
+				err = cfg.Unpack(&st, opts...)
+				show("struct", map[string]interface{}{"a": st.A, "b": st.B}, err)
+				return out
+			}}
+			return c09Explore(sc, 2, 300)
+		},
+	}
+}
+
+// (v) the same reference text in the configuration and in an Env configuration: each is resolved
+// in the tree it lives in, whichever setting is read first
+func c09Env() *core.Space {
+	menu := []string{"${x}", "${e.y}", "${e.z}", "pre-${x}", "${e.y}${x}", "${e.w}", "lit"}
+	envs := []M{
+		{"x": "envx", "e": M{"y": "${x}", "z": "lit", "w": "${e.y}"}},
+		{"x": "envx", "e": M{"y": "<${x}>", "z": "${x}", "w": "${x}"}},
+	}
+	radices := []int{len(menu), len(menu), len(menu), len(envs)}
+	return &core.Space{
+		Name: "references-with-env",
+		Size: product(radices...),
+		Text: func(i int) string {
+			d := mixedRadix(i, radices...)
+			return fmt.Sprintf("{x: rootx, a: %q, b: %q, c: %q} unpacked with Env(%s) into map and struct", menu[d[0]], menu[d[1]], menu[d[2]], tree.CanonGo(map[string]interface{}(envs[d[3]])))
+		},
+		Exec: func(i int) core.Result {
+			d := mixedRadix(i, radices...)
+			sc := c09Scenario{Run: func() string {
+				opts := []ucfg.Option{ucfg.PathSep("."), ucfg.VarExp}
+				cfg, err := ucfg.NewFrom(M{"x": "rootx", "a": menu[d[0]], "b": menu[d[1]], "c": menu[d[2]]}, opts...)
+				if err != nil {
+					return "newfrom:" + errClass(err)
+				}
+				env, err := ucfg.NewFrom(envs[d[3]], opts...)
+				if err != nil {
+					return "newfrom-env:" + errClass(err)
+				}
+				uopts := append([]ucfg.Option{ucfg.Env(env)}, opts...)
+				var m map[string]interface{}
+				if err := cfg.Unpack(&m, uopts...); err != nil {
+					return "unpack:error"
+				}
+				var st struct{ C, B, A, X string }
+				if err := cfg.Unpack(&st, uopts...); err != nil {
+					return "struct:error"
+				}
+				return "data=" + tree.CanonGo(m) + fmt.Sprintf(" struct=%+v", st)
+			}}
+			return c09Explore(sc, 1, 130)
+		},
+	}
+}
+
 func init() {
 	core.Register(&core.Check{
 		ID:    "C09",
 		Level: "model_checking",
-		Rule:  "stateless exploration of map enumeration orders: each scenario (NewFrom of maps with overlapping dotted keys; Merge of tree pairs under 5 policies; Unpack of mutually referencing settings into map and struct; each followed by Unpack, FlattenedKeys and CompareConfigs) is re-executed under every vector of order choices with at most Bound non-sorted maps, and under the complete product of orders when that is small; all 12 map-iteration sites of go-ucfg are routed through the order hook; oracle: one outcome (success or innermost error reason, canonical data, keys) per scenario; states = distinct outcomes, transitions = executions; non-trivial = scenario with at least two explored orders",
+		Rule:  "stateless exploration of map enumeration orders: each scenario (NewFrom of maps with overlapping dotted keys; Merge of tree pairs under 5 policies; Unpack of mutually referencing settings into map and struct; Unpack of references that exist both in the configuration and in an Env configuration; Unpack of references to lists and objects (diamonds) into typed maps and structs; each followed by Unpack, FlattenedKeys and CompareConfigs) is re-executed under every vector of order choices with at most Bound non-sorted maps, and under the complete product of orders when that is small; all 12 map-iteration sites of go-ucfg are routed through the order hook; oracle: one outcome (success or innermost error reason, canonical data, keys) per scenario; states = distinct outcomes, transitions = executions; non-trivial = scenario with at least two explored orders",
 		Assumptions: []string{
 			"maps with <=5 keys: all permutations; larger: rotations, reversal, first-two swap (none occur in these scenarios)",
 			"deviation bound 1-2 per scenario class unless the whole product (<= budget) is explored, which is counted in scenarios_explored_completely",
@@ -331,7 +459,7 @@ func init() {
 			if tier == "thorough" {
 				ts = unionTrees(ts, spines(1), mixedTrees(false)[:30])
 			}
-			return []*core.Space{c09NewFrom(tier), c09Merge(ts), c09Refs(tier)}
+			return []*core.Space{c09NewFrom(tier), c09Merge(ts), c09Env(), c09Containers(), c09Refs(tier)}
 		},
 		Post: func(tier string, cov map[string]interface{}) {
 			// states/transitions are aggregated by the runner from Result.States/Trans
